@@ -25,6 +25,8 @@ def load():
 
 
 class Coords(core.MockBase):
+    n_points, dim = 7, 'x'
+
     def __init__(self, names, edges):
         self.names, self.edges = list(names), set(edges)
 
@@ -43,6 +45,12 @@ class Coords(core.MockBase):
     def keys(self):
         return list(self.names)
 
+    def items(self):
+        return [(n, self[n]) for n in self.names]
+
+    def values(self):
+        return [self[n] for n in self.names]
+
     def is_edges(self, name, dim=None):
         if name not in self.names:
             raise KeyError(name)
@@ -52,9 +60,16 @@ class Coords(core.MockBase):
         if name not in self.names:
             raise KeyError(name)
 
+        n_points, is_edge, dim = self.n_points, name in self.edges, self.dim
+
         class C:
             values = ('values-of-coord', name)
             unit = 'cu'
+            dims = (dim,)
+            ndim = 1
+            sizes = {dim: n_points + (1 if is_edge else 0)}
+            shape = (n_points + (1 if is_edge else 0),)
+            variances = None
         return C
 
 
@@ -67,8 +82,13 @@ class DA(core.MockBase):
         self.dims = tuple(f'd{i}' for i in range(ndim))
         self.masks = {'m': 1} if masks else {}
         self.coords = Coords(coord_names, edges)
+        self.coords.dim = dim if ndim == 1 else 'd0'
         self.dim = dim
         self.values = ('VALUES',)
+        if ndim == 1:
+            self.dims = (dim,)
+        self.sizes = {d: Coords.n_points for d in self.dims}
+        self.shape = tuple(Coords.n_points for _ in self.dims)
 
 
 class NP(core.MockBase):
@@ -163,7 +183,7 @@ def save_contract(chk, mod):
             except Exception as e:
                 got = ('raise', type(e).__name__)
             if got[0] == 'raise':
-                ok = want == got and not npm.calls          # refused BEFORE any output
+                ok = want[0] == 'raise' and not npm.calls          # refused BEFORE any output (which exception is raised is not part of the property)
             else:
                 call = npm.calls[0] if len(npm.calls) == 1 else None
                 if call is not None and call[1] != 'FILE':
@@ -428,7 +448,58 @@ def header_failures(limit=10 ** 6):
     return fails
 
 
+def choice_failures(limit=10 ** 6):
+    """[B] the same case space as the abstract enumeration, on real data arrays: refusal or write, and WHICH coordinate is written"""
+    import io
+    import numpy as np
+    import scipp as sc
+    from vf.realrun import real_module
+    xye = real_module('io.xye')
+    fails = []
+    coord_sets = [(), ('x',), ('tof',), ('x', 'tof'), ('a', 'b'), ('a', 'b', 'x')]
+    n = 3
+    for has_var, ndim, masks, names, coord_arg in itertools.product((True, False), (0, 1, 2), (False, True), coord_sets, (None, 'tof', 'x', 'zz')):
+        for edges in ((), names[:1], names[-1:]) if names else ((),):
+            if ndim != 1 and names:
+                continue        # coordinates of 0-d / 2-d data: the dimension rule refuses these first; covered without coordinates
+            dims = ['x'] if ndim == 1 else (['x', 'y'] if ndim == 2 else [])
+            shape = [n] * ndim
+            vals = np.arange(1.0, 1.0 + int(np.prod(shape))).reshape(shape) if ndim else np.array(1.0)
+            data = sc.array(dims=dims, values=vals, variances=vals * 0.1 if has_var else None, unit='counts') if ndim else sc.scalar(1.0, variance=0.1 if has_var else None, unit='counts')
+            coords = {}
+            for k, nm in enumerate(names):
+                m = n + 1 if nm in edges else n
+                coords[nm] = sc.array(dims=['x'], values=np.arange(m, dtype=float) * (k + 2) + 10 * (k + 1), unit='m')
+            da = sc.DataArray(data, coords=coords)
+            if masks and ndim:
+                da.masks['m'] = sc.array(dims=dims, values=np.zeros(shape, dtype=bool))
+            elif masks:
+                da.masks['m'] = sc.scalar(False)
+            want = spec_save(has_var, ndim, masks, list(names), set(edges), coord_arg, 'x')
+            ident = f'choice:var={has_var},ndim={ndim},masks={masks},coords={"+".join(names)},edges={"+".join(edges)},coord={coord_arg}'
+            f = io.StringIO()
+            try:
+                xye.save_xye(f, da, coord=coord_arg, header='')
+                text = f.getvalue()
+                first = [float(ln.split(' ')[0]) for ln in text.splitlines() if ln and not ln.startswith('#')]
+                written = [nm for nm in names if nm not in edges and np.array_equal(coords[nm].values, first)]
+                got = ('write', written[0] if len(written) == 1 else f'?{first}')
+            except Exception as e:  # noqa: BLE001
+                got = ('raise', type(e).__name__)
+                if f.getvalue():
+                    fails.append({'id': ident, 'problem': f'refused ({got[1]}) after writing {len(f.getvalue())} characters'})
+                    continue
+            if got[0] != want[0] or (got[0] == 'write' and got[1] != want[1]):
+                fails.append({'id': ident, 'problem': f'expected {want[0]} {want[1] if want[0] == "write" else ""}, observed {got[0]} {got[1]}'})
+            if len(fails) >= limit:
+                return fails
+    return fails
+
+
 def bounded_roundtrips(chk):
+    cf = choice_failures()
+    chk.bounded_check('refusal-or-coordinate-choice', 'real save_xye on real data arrays over the case space of the abstract enumeration: refused before any output, or the '
+                      'documented coordinate written', 'variances x 0..2 dims x masks x 6 coordinate sets x bin-edge placement x 4 coord arguments (1-d cases with coordinates)', 0, cf[:10])
     n = 120 if chk.tier == 'quick' else 3000
     fails = roundtrip_failures(n, 95 + chk.seed)
     chk.bounded_check('real-round-trips', 'real save_xye / load_xye: coordinate and values bit for bit, variances within 4 unit roundoffs, hostile headers, 1..1e4 rows, '
@@ -437,6 +508,10 @@ def bounded_roundtrips(chk):
 
 def replay(rec):
     f = rec.get('meta', {}).get('replay') or {}
+    if str(f.get('id', '')).startswith('choice:') or 'refused-before-any-output' in rec['obligation']:
+        cf = choice_failures()
+        hit = [x for x in cf if x['id'] == f.get('id')] or cf
+        return {'reproduced': bool(hit), 'cases': hit[:2]}
     if str(f.get('id', '')).startswith('header:'):
         hit = [x for x in header_failures() if x['id'] == f['id']]
         return {'reproduced': bool(hit), 'cases': hit[:1]}
